@@ -41,14 +41,22 @@ def build_run(rid, tree, cfg, events):
         if e["ev"] == "GroupParams":
             params.update({k: v for k, v in e.items() if k in ("prefix_len", "suffix_len", "suffix_threshold")})
     stages = [e for e in events if e["ev"] == "StageDone" and e["stage"] != "size"]
-    if [e["stage"] for e in stages] == ["paths", "prefix", "suffix", "done"] and len(params) < 3:
-        return None, "stage parameters missing"
-    if [e["stage"] for e in stages] != ["paths", "prefix", "suffix", "done"]:
-        return None, "unexpected stage sequence %s" % [e["stage"] for e in stages]
-    exp = expected_params(cfg)
-    if exp is not None and exp != params:
-        return None, "stage parameters %s differ from the documented %s" % (params, exp)
-    P, S, T = params["prefix_len"], params["suffix_len"], params["suffix_threshold"]
+    tname = cfg.get("transform")
+    if tname:
+        # --transform: one stage over all files; its only event is the final one
+        if [e["stage"] for e in stages] != ["done"]:
+            return None, "unexpected stage sequence %s" % [e["stage"] for e in stages]
+        P = S = T = 0
+    else:
+        if [e["stage"] for e in stages] == ["paths", "prefix", "suffix", "done"] and len(params) < 3:
+            return None, "stage parameters missing"
+        if [e["stage"] for e in stages] != ["paths", "prefix", "suffix", "done"]:
+            return None, "unexpected stage sequence %s" % [e["stage"] for e in stages]
+        exp = expected_params(cfg)
+        if exp is not None and exp != params:
+            return None, "stage parameters %s differ from the documented %s" % (params, exp)
+        P, S, T = params["prefix_len"], params["suffix_len"], params["suffix_threshold"]
+    tf = gg.TRANSFORMS[tname][1] if tname else None
     kind, rf = gg.eff_filter(cfg)
     files = []
     index = {}
@@ -65,12 +73,14 @@ def build_run(rid, tree, cfg, events):
         n = len(data)
         pk = data[:n] if n <= P else data[:MIN_PREFIX]
         sk = data[n - min(S, n):]
+        out = tf(data) if tf else data
         files.append({"ino": inos.setdefault((st.st_dev, st.st_ino), len(inos) + 1), "root": (gg.ROOTS.index(f["root"]) + 1) if cfg.get("isolate") else 0,
-                      "len": n, "pk": atoms.setdefault(pk, len(atoms) + 1), "sk": atoms.setdefault(sk, len(atoms) + 1), "ck": atoms.setdefault(data, len(atoms) + 1)})
+                      "len": n, "pk": atoms.setdefault(pk, len(atoms) + 1), "sk": atoms.setdefault(sk, len(atoms) + 1), "ck": atoms.setdefault(data, len(atoms) + 1),
+                      "tlen": len(out), "tk": atoms.setdefault(out, len(atoms) + 1)})
         index[os.path.normpath(p)] = len(files)
     lines = [json.dumps({"ev": "Reset", "run": rid, "inp": {"files": files, "cfg": {"kind": kind, "rf": rf, "isolate": bool(cfg.get("isolate")),
                                                                                   "matchLinks": bool(cfg.get("matchLinks")),
-                                                                                  "skipContent": bool(cfg.get("skip_content")), "P": P, "T": T}}})]
+                                                                                  "skipContent": bool(cfg.get("skip_content")), "transform": bool(tname), "P": P, "T": T}}})]
     for e in stages:
         groups = []
         for g in e["groups"]:
